@@ -22,6 +22,12 @@
                 drainer had passed its suspended-check and not yet begun the callout when the period began, and how
                 many callouts began since,
      act_called dispatch_activate has been called.
+   The push of dispatch_async_f includes the continuation found by trace conformance (and added to SLane.v as `ostep`):
+   a push onto a NON-empty list may, on an unsynchronised read of the max QoS (_dispatch_queue_need_override), call
+   dx_wakeup(dq, qos, CONSUME_2) = PA_oprobe / PA_owake: the wakeup loop WITHOUT MAKE_DIRTY.  Here the choice is a parameter
+   of the call (`CAsync qos ovr`, chosen by the environment), which covers both continuations in every state.  The same
+   program points serve the plain dx_wakeup(CONSUME_2) at the end of _dispatch_lane_resume, which a serial lane never
+   reaches (SLaneS_steps_b.step_pr_rmw shows the branch dead).
    Not modelled: dispatch_sync, QoS overrides beyond the max-qos merge, reference counts (retain_2/release_2). *)
 From Coq Require Import ZArith Bool List.
 From Verif Require Import Word Conc Gen_consts Gen_dqstate.
